@@ -391,7 +391,7 @@ class sequence_variables:
             suffix = key[l_ + 1:]
             prefix = key[:l_]
 
-        if suffix in self.index_functions:
+        if suffix in self.index_functions and not special_prefix(prefix):
             try:
                 v = data[prefix + '-index']
             except Exception:
